@@ -62,6 +62,8 @@ type verifC23Req struct {
 	inCache  atomic.Int32 // 1 while the stub is inside a cache2 inflight call
 	entered  chan struct{}
 	loadGate chan verifC23Outcome // nil: the stub decides by itself (random driver)
+	loaded   chan struct{}        // closed after LoadEnd was emitted
+	announce chan int64           // schedule driver: bytes to announce while the load is in progress
 	yields   int                  // random driver: scheduler yields inside the load
 	fail     bool                 // random driver: the load fails
 	bytes    int64                // inflight bytes to announce (0: none)
@@ -82,6 +84,7 @@ type verifC23Env struct {
 	inflight bool
 	deadline time.Duration
 
+	invMu    sync.Mutex // invalidate calls do not overlap (the product has one invalidation goroutine)
 	mu       sync.Mutex
 	sids     map[[2]int64]int
 	nextG    int
@@ -195,7 +198,37 @@ func (e *verifC23Env) load(ctx context.Context, h *requestHandler, pq *queryBuil
 	}
 	ok := !r.fail
 	if r.loadGate != nil {
-		ok = (<-r.loadGate).ok
+		var cc *cache2
+		var id uint32
+		if r.announce != nil {
+			cctx, cancel := context.WithCancel(ctx)
+			defer cancel()
+			if cc = cache2FromInflightCtx(cctx); cc != nil {
+				id = cc.NewInflightReq(cancel)
+				r.inCache.Store(1)
+				cc.updateInflightApprox(id, 0)
+				r.inCache.Store(0)
+				defer cc.afterInflightLoadFinished(id)
+			}
+			ctx = cctx
+		}
+	wait:
+		for {
+			select {
+			case o := <-r.loadGate:
+				ok = o.ok
+				break wait
+			case b := <-r.announce:
+				r.inCache.Store(1)
+				cc.updateInflightApprox(id, b)
+				r.inCache.Store(0)
+			}
+		}
+		select {
+		case <-ctx.Done():
+			cancelled = true
+		default:
+		}
 	} else {
 		for i := 0; i < r.yields; i++ {
 			runtime.Gosched()
@@ -224,14 +257,20 @@ func (e *verifC23Env) load(ctx context.Context, h *requestHandler, pq *queryBuil
 	}
 	if !ok {
 		e.tr.Emit("LoadEnd", "l", lid, "ok", false, "cnt", []int{})
+		if r.loads.Load() == 1 {
+			close(r.loaded)
+		}
 		return 0, errVerifC23Load
 	}
 	e.tr.Emit("LoadEnd", "l", lid, "ok", true, "cnt", cnt) // the storage is read here
+	if r.loads.Load() == 1 {
+		close(r.loaded)
+	}
 	return rows, nil
 }
 
 func (e *verifC23Env) newReq(key string, play int, force bool, step, from, to int64) *verifC23Req {
-	r := &verifC23Req{key: key, play: play, force: force, entered: make(chan struct{}), done: make(chan struct{})}
+	r := &verifC23Req{key: key, play: play, force: force, entered: make(chan struct{}), loaded: make(chan struct{}), done: make(chan struct{})}
 	r.h = &requestHandler{Handler: e.H, accessInfo: accessInfo{user: "u" + key}}
 	r.h.endpointStat.timings.Timings = map[string][]time.Duration{}
 	r.q = &queryBuilder{cacheKey: key, play: play}
@@ -376,6 +415,8 @@ func (e *verifC23Env) invalidate(times []int64, step int64) {
 			slots = append(slots, s)
 		}
 	}
+	e.invMu.Lock()
+	defer e.invMu.Unlock()
 	e.mu.Lock()
 	e.nextInv++
 	i := e.nextInv
